@@ -44,8 +44,8 @@ def _span_in_file(sp, fname):
     return None
 
 
-def weave_group(group, repo, outdir):
-    w = Weaver(repo).weave(group)
+def weave_group(group, repo, outdir, extras=()):
+    w = Weaver(repo).weave(group, extras=extras)
     os.makedirs(outdir, exist_ok=True)
     out = os.path.join(outdir, group + '.rs')
     open(out, 'w').write('\n'.join(w.lines) + '\n')
@@ -217,12 +217,60 @@ def classify(d, mp, woven_name, lines):
                 rendered=d.get('rendered', '')[:3000])
 
 
-def run_group(group, repo='/repo', outdir=None, seed=0, rlimit=None, extra_args=(), log_air=True, timeout=1800):
+def run_group(group, repo='/repo', outdir=None, seed=0, rlimit=None, extra_args=(), log_air=True, timeout=900):
+    """run a group; when the code under contract calls a helper that is not under contract (a refactoring moved logic into a
+    new function), extract that helper from the same source file and verify again (at most 3 rounds)"""
+    extras = []
+    res = None
+    for _round in range(4):
+        res = _run_group(group, repo, outdir, seed, rlimit, extra_args, log_air, timeout, extras)
+        if res['status'] != 'undecided' or not res.get('undecided'):
+            break
+        new = find_missing_helpers(res, repo, extras)
+        if not new:
+            break
+        extras += new
+    if extras:
+        res['auto_extracted_helpers'] = ['%s :: %s' % (f, ' :: '.join(sg)) for f, sg in extras]
+    return res
+
+
+def find_missing_helpers(res, repo, have):
+    from rsx import Source
+    out = []
+    mp = res.get('map') or {}
+    for u in res.get('undecided', []):
+        m = re.search(r'no (?:method|function or associated item|variant, associated function, or constant) named `(\w+)` found|cannot find function `(\w+)` in this scope', u.get('message', ''))
+        if not m or not u.get('unit'):
+            continue
+        name = m.group(1) or m.group(2)
+        unit = next((x for x in mp.get('units', []) if x['unit'] == u['unit']), None)
+        if not unit:
+            continue
+        S = Source(unit['file'], open(os.path.join(repo, unit['file'])).read())
+        segs = [sg.strip() for sg in unit['item'].split(' :: ')]
+        cands = []
+        if len(segs) > 1:
+            cands.append(segs[:-1] + ['fn ' + name])
+        cands.append(['fn ' + name])
+        for c in cands:
+            try:
+                S.find(c)
+            except Exception:
+                continue
+            key = (unit['file'], c)
+            if key not in [(f, sg) for f, sg in have + out]:
+                out.append(key)
+            break
+    return out
+
+
+def _run_group(group, repo, outdir, seed, rlimit, extra_args, log_air, timeout, extras):
     outdir = outdir or os.environ.get('VERIF_BUILD') or os.path.join(VERIF, 'build')
     t0 = time.time()
     res = dict(group=group, status='ok', reason=None, diags=[], undecided=[], units=[], obligations={}, time_s=0.0)
     try:
-        path, mp, lines = weave_group(group, repo, outdir)
+        path, mp, lines = weave_group(group, repo, outdir, extras=extras)
     except SliceError as e:
         res.update(status='undecided', reason='anchor: %s' % e)
         return res
